@@ -152,7 +152,7 @@ CLAIMED = {
              "JavaScript and the engine's trace must equal the model's, in 7 scheduling modes (drained once; a custom executor running 1/2/5 jobs "
              "per run_jobs call; evaluate_async_with_budget 1/7/100).",
         technique="Lean 4 proofs over a promise/job-queue state machine (scheduling independence, FIFO, settle-once) + model-predicted vs real traces of generated promise programs under 7 scheduling modes",
-        note="exactly-once is proved per step (settle_schedules_each_once, performThen_pending, performThen_settled: a reaction is stored or scheduled, never both; settling schedules each stored one once, in order); its lift to whole runs is checked by the traces. Async generators are outside the Lean model: generated request sequences are checked against the FIFO oracle of ECMA-262 27.6.3 and across scheduling modes; combinators and user thenables only scheduling-independence (engine-only).",
+        note="exactly-once is proved per step (settle_schedules_each_once, performThen_pending, performThen_settled: a reaction is stored or scheduled, never both; settling schedules each stored one once, in order); its lift to whole runs is checked by the traces. Async generator BODIES are outside the Lean model; their request queue is modelled as the specification states it (agen_fifo: for every interleaving of AsyncGeneratorEnqueue and AsyncGeneratorCompleteStep the settled promises are a prefix of the requests) and generated request sequences are checked against that FIFO oracle (ECMA-262 27.6.3) and across scheduling modes; combinators and user thenables only scheduling-independence (engine-only).",
     ),
     "C18": dict(
         level="proof",
